@@ -127,7 +127,7 @@ struct Collector : public DocumentVisitor
     void visitInstance(instance_t& i) override { for (auto& [s, e] : i.mapping) add("arg", e); }
     void visitFunction(function_t& f) override
     {
-        if (!f.body) return;
+        if (!f.body || vh::stmt_incomplete(f.body.get())) return;
         vh::StmtExprs se;
         try { f.body->accept(&se); } catch (...) {}
         for (auto& e : se.exprs) add("stmt", e);
